@@ -23,10 +23,26 @@ ASSUMPTIONS = ["for the two encoding wrappers (label smoothing, one-hot) the del
 
 
 class InternalListRoot(ClassRoot):
+    """bulk kinds 'internal' / 'internal_numpy' / 'internal_tensor' hand out the root's own storage by reference:
+    a wrapper must not write into it"""
+
     def getall_class(self):
         if self.bulk == "internal":
-            return self.classes  # the root's own list: a wrapper must not write into it
+            return self.classes
+        if self.bulk == "internal_numpy":
+            if "_arr" not in self.__dict__:
+                self._arr = np.array(self.classes, dtype=np.int64)
+            return self._arr
+        if self.bulk == "internal_tensor":
+            if "_arr" not in self.__dict__:
+                self._arr = torch.tensor(self.classes, dtype=torch.long)
+            return self._arr
         return super().getall_class()
+
+    def storage(self):
+        if "_arr" in self.__dict__:
+            return [int(v) for v in self._arr.tolist()]
+        return list(self.classes)
 
 
 def make_root(spec):
@@ -80,8 +96,8 @@ def common(kind, spec, build, encoding=False, want_bulk=True):
         per2 = [w.getitem_class(i) for i in range(n)]
         if [w.getitem_x(i) for i in range(n)] != list(range(n)):
             raise Violation(f"x-changed:{kind}", "")
-        if root.classes != before:
-            raise Violation(f"root-labels-mutated:{kind}", f"root labels {before} became {root.classes}")
+        if root.classes != before or root.storage() != before:
+            raise Violation(f"root-labels-mutated:{kind}", f"root labels {before} became {root.classes} / {root.storage()}")
         if [root.getitem_class(i) for i in range(n)] != before:
             raise Violation(f"root-labels-mutated:{kind}", "per-sample root labels changed")
         outs.append((w, per, bulk, per2, root))
@@ -108,7 +124,7 @@ def common(kind, spec, build, encoding=False, want_bulk=True):
 def nontrivial_layout(spec):
     from collections import Counter
     cnt = Counter(c for c in spec["classes"] if c >= 0)
-    return any(cnt.get(c, 0) in (0, 1) for c in range(spec["C"])) or -1 in spec["classes"] or spec.get("bulk") == "internal"
+    return any(cnt.get(c, 0) in (0, 1) for c in range(spec["C"])) or -1 in spec["classes"] or str(spec.get("bulk")).startswith("internal")
 
 
 def check_class_groups(spec):
@@ -209,7 +225,14 @@ def check_pseudo_label(spec):
             kw = {"topk": 1 + spec["topk"] % C, "tau": spec["tau"], "seed": spec["seed"]}
             if kw["tau"] is None:
                 table = table.softmax(dim=1)
-    w, lab, root = common("KDPseudoLabelWrapper", spec, lambda r: KDPseudoLabelWrapper(r, pseudo_labels=table, **kw))
+    try:
+        w, lab, root = common("KDPseudoLabelWrapper", spec, lambda r: KDPseudoLabelWrapper(r, pseudo_labels=table, **kw))
+    except ValueError as e:
+        if "pvals" in str(e):
+            # numpy's multinomial rejects float32 top-k probabilities whose sum exceeds 1 by rounding (topk == C): the sampled
+            # label cannot be produced at all - noted in DESIGN.md, outside what C16 states
+            raise Refused("numpy multinomial rejects the float32 probabilities")
+        raise
     labels = [form]
     nt = True
     if form == "hard":
@@ -322,9 +345,8 @@ def check_one_hot(spec):
 # ------------------------------------------------------------------ strategies
 def L(extra, unlabeled=False, internal=False, **kw):
     base = with_layout(extra, min_n=1, allow_unlabeled=unlabeled, **kw)
-    if internal:
-        return base.flatmap(lambda s: st.sampled_from(["list", "internal", "numpy", "tensor", "internal"]).map(lambda b: dict(s, bulk=b)))
-    return base
+    kinds = ["list", "internal", "numpy", "tensor", "internal_numpy", "internal_tensor"]
+    return base.flatmap(lambda s: st.sampled_from(kinds).map(lambda b: dict(s, bulk=b)))
 
 
 SEED = st.integers(0, 2 ** 31 - 1)
@@ -334,7 +356,7 @@ S_SWAP = L(st.fixed_dictionaries({"p": st.one_of(st.sampled_from([0.0, 1.0, 0.5]
 S_OVERWRITE = L(st.fixed_dictionaries({"k": st.integers(0, 9999), "as_tensor": st.booleans()}))
 S_ALLGATHER = L(st.fixed_dictionaries({"W": st.integers(0, 47)}))
 S_PSEUDO = L(st.fixed_dictionaries({"k": st.integers(0, 9999), "form": st.sampled_from(["hard", "soft", "threshold", "threshold", "topk"]),
-                                    "scale": st.sampled_from([0.3, 1.0, 3.0]), "thr": st.sampled_from([0.0, 0.3, 0.5, 0.7, 0.9, 0.999]),
+                                    "scale": st.sampled_from([0.0, 0.3, 1.0, 3.0]), "thr": st.sampled_from([0.0, 0.125, 0.25, 0.3, 0.5, 0.7, 0.9, 0.999]),
                                     "topk": st.integers(0, 7), "tau": st.sampled_from([None, 0.5, 1.0, float("inf")]), "seed": SEED}))
 S_RANDCLS = L(st.fixed_dictionaries({"mode": st.sampled_from(["random", "randperm", "gatherbug"]), "nc": st.integers(1, 9),
                                      "W": st.integers(0, 47), "seed": SEED}))
